@@ -274,3 +274,194 @@ pub fn phase_boundaries(m: &MergedSpec, max_cycles: u32) -> Vec<f64> {
     out.dedup();
     out
 }
+
+// ---------------------------------------------------------------------------------------------
+// Independent reference evaluator of a timeline specification
+// ---------------------------------------------------------------------------------------------
+//
+// Written from the *documented* semantics (CSS-style per-property keyframe interpolation; delay,
+// repeat and reverse mapping time to a position; a substituted start value that only affects the
+// first forward pass), not from mina's frame lookup: it scans the sorted keyframes of one property
+// linearly and computes the position directly. Only the easing curves themselves (`Easing::calc`)
+// are shared with mina. It lets the simulation checks notice defects of the timeline layer that a
+// purely differential oracle (real timeline vs real timeline) cancels out.
+
+#[derive(Clone, Copy, Debug, PartialEq)]
+pub struct RefPosition {
+    /// normalized position in [0, 1]
+    pub pos: f32,
+    /// whether a substituted start value applies (not started, or first forward pass)
+    pub use_start: bool,
+    /// the time is so close to a phase boundary (cycle wrap, reverse peak, end) that a rounding
+    /// difference may legitimately select the other side; comparisons should be skipped
+    pub near_boundary: bool,
+}
+
+pub fn ref_position(tl: &TlSpec, t: f32) -> RefPosition {
+    let delay = tl.delay;
+    let dur = tl.duration;
+    let local = t - delay;
+    // proximity to a multiple of half the cycle, measured on both time scales
+    let tol = 4.0 * f32::EPSILON * t.abs().max(dur) + 1e-6 * dur;
+    let half = dur * 0.5;
+    let k = (local / half).round();
+    let near_half_multiple = k >= 1.0 && (local - k * half).abs() <= tol;
+    if local < 0.0 {
+        return RefPosition {
+            pos: 0.0,
+            use_start: true,
+            near_boundary: false,
+        };
+    }
+    let total_cycles: Option<f32> = match tl.repeat {
+        Rep::None => Some(1.0),
+        Rep::Times(n) => Some((n as f64 + 1.0) as f32),
+        Rep::Infinite => None,
+    };
+    if let Some(c) = total_cycles {
+        if local > dur * c {
+            return RefPosition {
+                pos: if tl.reverse { 0.0 } else { 1.0 },
+                use_start: false,
+                near_boundary: near_half_multiple,
+            };
+        }
+    }
+    let quot = local / dur;
+    let rem = local % dur;
+    let repeats = tl.repeat != Rep::None;
+    let (cycle_time, repeating) = if !repeats {
+        (local, false)
+    } else if rem == 0.0 && quot >= 1.0 {
+        // exact cycle multiples hold the end of the cycle that just finished
+        (dur, quot > 1.0)
+    } else {
+        (rem, quot >= 1.0)
+    };
+    let ratio = cycle_time / dur;
+    let (pos, reversing) = if tl.reverse {
+        if ratio > 0.5 {
+            ((1.0 - ratio) * 2.0, true)
+        } else {
+            (ratio * 2.0, false)
+        }
+    } else {
+        (ratio, false)
+    };
+    RefPosition {
+        pos: pos.clamp(0.0, 1.0),
+        use_start: !repeating && !reversing,
+        near_boundary: near_half_multiple,
+    }
+}
+
+/// Frames of one property: (position, value as f32, easing id), sorted, with the implicit 0 % and
+/// 100 % frames. `None` if the timeline never keyframes the property.
+fn ref_frames(tl: &TlSpec, prop: usize) -> Option<Vec<(f32, f32, u8)>> {
+    let mut defining: Vec<&KfSpec> = tl.kfs.iter().filter(|k| k.defines(prop)).collect();
+    if defining.is_empty() {
+        return None;
+    }
+    defining.sort_by(|x, y| x.pos.total_cmp(&y.pos));
+    let value = |k: &KfSpec| -> f32 {
+        match kf_value(k, prop) {
+            Some(PropVal::F(v)) => v,
+            Some(PropVal::I(v)) => v as f32,
+            None => 0.0,
+        }
+    };
+    let mut frames: Vec<(f32, f32, u8)> = Vec::new();
+    let mut easing = tl.easing;
+    if defining[0].pos > 0.0 {
+        frames.push((0.0, 0.0, tl.easing)); // type default, timeline default easing
+    }
+    for k in defining {
+        if let Some(e) = k.easing {
+            easing = e;
+        }
+        frames.push((k.pos, value(k), easing));
+    }
+    let last = *frames.last().unwrap();
+    if last.0 < 1.0 {
+        frames.push((1.0, last.1, last.2));
+    }
+    Some(frames)
+}
+
+/// Value of one property of one timeline at a position; `start` substitutes the 0 % value.
+fn ref_value(frames: &[(f32, f32, u8)], pos: f32, start: Option<f32>) -> f32 {
+    let val = |i: usize| -> f32 {
+        if i == 0 {
+            start.unwrap_or(frames[0].1)
+        } else {
+            frames[i].1
+        }
+    };
+    // last frame whose position is <= pos
+    let mut i = 0;
+    for (j, f) in frames.iter().enumerate() {
+        if f.0 <= pos {
+            i = j;
+        }
+    }
+    if i + 1 >= frames.len() {
+        return val(i);
+    }
+    let (p0, p1) = (frames[i].0, frames[i + 1].0);
+    if p1 - p0 == 0.0 {
+        return val(i);
+    }
+    let x = (pos - p0) / (p1 - p0);
+    let y = easing_calc(frames[i].2, x);
+    val(i) * (1.0 - y) + val(i + 1) * y
+}
+
+#[derive(Clone, Copy, Debug, PartialEq)]
+pub struct RefProp {
+    /// value as f32 (integer properties: before rounding)
+    pub value: f32,
+    /// magnitude scale of everything that took part, for tolerances
+    pub scale: f32,
+    pub near_boundary: bool,
+}
+
+/// Reference value of every property of a merged timeline at time `t` (later components win).
+/// `None` for a property no component keyframes.
+pub fn ref_eval(m: &MergedSpec, start: Option<&Vals>, t: f32) -> [Option<RefProp>; 4] {
+    let mut out: [Option<RefProp>; 4] = [None; 4];
+    for tl in &m.parts {
+        let rp = ref_position(tl, t);
+        for prop in 0..4 {
+            if let Some(frames) = ref_frames(tl, prop) {
+                let s = match (rp.use_start, start) {
+                    (true, Some(v)) => Some(match get_prop(v, prop) {
+                        PropVal::F(x) => x,
+                        PropVal::I(x) => x as f32,
+                    }),
+                    _ => None,
+                };
+                let value = ref_value(&frames, rp.pos, s);
+                let mut scale = s.map(f32::abs).unwrap_or(0.0);
+                for f in &frames {
+                    scale = scale.max(f.1.abs());
+                }
+                out[prop] = Some(RefProp {
+                    value,
+                    scale,
+                    near_boundary: rp.near_boundary,
+                });
+            }
+        }
+    }
+    out
+}
+
+/// Compares an observed property with the reference: floats within `rel` x scale, integers within
+/// one unit of the rounded reference (rounding of a value near .5 may go either way).
+pub fn ref_matches(actual: PropVal, r: &RefProp, rel: f32) -> bool {
+    let tol = rel * r.scale.max(1e-3);
+    match actual {
+        PropVal::F(x) => x == r.value || (x - r.value).abs() <= tol,
+        PropVal::I(x) => ((x as f32) - r.value).abs() <= 0.5 + tol,
+    }
+}
